@@ -57,7 +57,8 @@ def run_case(case):
     G = ref.named_group(case["G"], d)
     sig_in = gen.sig_tuple(case["in_sig"])
     shape = tuple(opts["shape"])
-    labels = [f"d{d}", "G_" + case["G"], f"M{case['M']}", f"bias_{mode_b}", "mode_" + case["mode"]] + convgen.option_labels(opts, d)
+    labels = ["channels_equal" if len({c for _, c in case["in_sig"]}) == 1 and len({c for _, c in case["out_sig"]}) == 1 and len(case["out_sig"]) > 1 else "channels_mixed",
+              f"d{d}", "G_" + case["G"], f"M{case['M']}", f"bias_{mode_b}", "mode_" + case["mode"]] + convgen.option_labels(opts, d)
     key = [d, case["G"], case["M"], case["in_sig"], case["out_sig"], case["bias"], opts, case["mode"]]
     has_tensor = any(t[0] > 0 or t[1] == 1 for t, _ in sig_in + gen.sig_tuple(case["out_sig"]))
     tor = tuple(bool(b) for b in opts["is_torus"])
